@@ -777,7 +777,12 @@ def c14_oracle(sc):
        * when the trace ends settled with a healthy transport and connection, every SETTINGS / PING fed has been answered;
        * after the n-th ACK no written DATA / HEADERS / PUSH_PROMISE / CONTINUATION frame exceeds the MAX_FRAME_SIZE in force
          (the n-th SETTINGS' value, or the last one before it, or 16384);
-       * a SETTINGS ACK fed while the endpoint has no unacknowledged SETTINGS of its own is answered by GOAWAY(PROTOCOL_ERROR)."""
+       * a SETTINGS ACK fed while the endpoint has no unacknowledged SETTINGS of its own is answered by GOAWAY(PROTOCOL_ERROR);
+       * user pings: PING(USER) frames written <= successful send_ping calls <= pongs delivered by poll_pong + 1 (a second
+         send_ping while one is outstanding is refused); pongs delivered <= acknowledgements with the USER payload fed;
+       * no assert!/expect of settings.rs / ping_pong.rs / go_away.rs / connection.rs fires."""
+    _, user_payload = ping_constants()
+    ping_ok = user_pings_written = pongs_delivered = user_acks_fed = 0
     cfg = sc["cfg"]
     fed_settings = [dict(cfg.get("peer_settings", []))]     # initial SETTINGS
     fed_pings = []
@@ -792,8 +797,25 @@ def c14_oracle(sc):
     for st in sc["trace"]:
         op = st["op"]
         o = op.get("op")
+        res = st["res"]
+        if isinstance(res, dict) and "panic" in res:
+            if any(t in res["panic"] for t in CONTROL_ASSERTS):
+                return {"class": panic_class(res["panic"]), "step": st["i"], "why": "an assertion of the control plane fired", "panic": res["panic"]}
+            clean = False
+        if o == "send_ping" and res == "ok":
+            ping_ok += 1
+            if ping_ok > pongs_delivered + 1:
+                return {"class": "second-user-ping-accepted", "step": st["i"], "why": "send_ping accepted while a user ping is outstanding",
+                        "accepted": ping_ok, "pongs_delivered": pongs_delivered}
+        elif o == "poll_pong" and res == "Pong":
+            pongs_delivered += 1
+            if pongs_delivered > user_acks_fed:
+                return {"class": "pong-without-ack", "step": st["i"], "why": "poll_pong delivered more pongs than PING acknowledgements with the user payload were fed",
+                        "delivered": pongs_delivered, "acks_fed": user_acks_fed}
         if o == "peer":
             w = op.get("what")
+            if isinstance(w, dict) and w.get("t") == "PING" and w.get("ack") and be(w.get("payload") or op.get("bytes", [])[9:17]) == user_payload:
+                user_acks_fed += 1
             if not (isinstance(w, dict) and "t" in w):
                 clean = False
                 if isinstance(w, dict) and w.get("chaos") == "stray-settings-ack" and stray_at is None:
@@ -821,6 +843,11 @@ def c14_oracle(sc):
                             max_frame = s[5]
                 elif st["i"] > 0:
                     own_unacked += 1
+            elif t == "PING" and not f.get("ack") and be(f["payload"]) == user_payload:
+                user_pings_written += 1
+                if user_pings_written > ping_ok:
+                    return {"class": "user-ping-surplus", "step": st["i"], "why": "more PING(USER) frames written than successful send_ping calls",
+                            "written": user_pings_written, "send_ping_ok": ping_ok}
             elif t == "PING" and f.get("ack"):
                 pongs += 1
                 if pongs > len(fed_pings):
@@ -846,12 +873,35 @@ def c14_oracle(sc):
         if pongs != len(fed_pings):
             return {"class": "ping-unanswered", "step": last["i"], "why": "a PING was never answered although the connection is healthy and settled",
                     "pongs": pongs, "fed": len(fed_pings)}
-    # stray ACK: more ACKs fed than SETTINGS of its own the endpoint has written => connection error PROTOCOL_ERROR
-    own_total = 1 + sum(1 for st in sc["trace"] if st["i"] > 0 for f in st["out"] if f["t"] == "SETTINGS" and not f.get("ack"))
-    if clean and transport_ok and sc.get("settled") and acks_fed > own_total and last["io"]["inbound"] == 0 and not ended:
-        if 1 not in goaway_codes:
-            return {"class": "stray-ack-tolerated", "step": last["i"], "why": "an acknowledgement that answers nothing was not treated as a connection error",
-                    "acks_fed": acks_fed, "own_settings": own_total, "goaways": goaway_codes}
+    # stray ACK: at a poll that has consumed everything fed so far, more ACKs were fed (also by the malformed stream's
+    # "stray-settings-ack") than the endpoint can have SETTINGS outstanding for (the handshake's + one per successful
+    # set_initial_window so far, whether already on the wire or not) => one of them answered nothing; if the connection was alive
+    # and nothing else was wrong, GOAWAY(PROTOCOL_ERROR) must be on the wire once the trace has settled
+    seen, requested, bad_before, alive, consumed = 0, 1, False, True, False
+    for st in sc["trace"]:
+        op = st["op"]
+        o = op.get("op")
+        if o == "peer":
+            w = op.get("what")
+            is_ack = isinstance(w, dict) and ((w.get("t") == "SETTINGS" and w.get("ack")) or w.get("chaos") == "stray-settings-ack")
+            if is_ack:
+                seen += 1
+            elif not (isinstance(w, dict) and "t" in w) and not consumed:
+                bad_before = True
+        elif o == "set_initial_window" and st["res"] == "ok":
+            requested += 1
+        elif o in ("eof", "read_fail", "drop_conn") or (o == "write_mode" and op.get("mode") in ("fail", "zero")):
+            alive = False          # also after the consumption: the GOAWAY may never get written
+        if o in ("conn_poll", "poll_accept"):
+            if isinstance(st["res"], str) and st["res"] != "Pending" and conn_result_of(st["res"]) is not None and not consumed:
+                alive = False
+            if seen > requested and alive and not bad_before and st["io"]["inbound"] == 0 and st["res"] == "Pending":
+                consumed = True
+        if isinstance(st["res"], dict) and "panic" in st["res"]:
+            alive = False
+    if consumed and alive and sc.get("settled") and not goaway_codes:
+        return {"class": "stray-ack-tolerated", "step": last["i"], "why": "an acknowledgement that answers nothing was not treated as a connection error",
+                "acks_fed": seen, "settings_requested": requested}
     return None
 
 
@@ -872,6 +922,7 @@ def c15_oracle(sc):
     fed_goaway = None          # (step, last, code) of the first well-formed GOAWAY fed
     fed_any_goaway = False
     n_fed_goaway = 0
+    fed_lasts, increase_at, increase_consumed, done_before = [], None, False, False
     handed_out = set()         # stream ids send_request / push_request returned before the peer's GOAWAY was consumed
     clean = True
     polled_after_goaway = False
@@ -890,10 +941,14 @@ def c15_oracle(sc):
             if not (isinstance(w, dict) and "t" in w):
                 clean = False
             elif w["t"] == "GOAWAY":
+                wlast = w["last"] & 0x7fffffff          # the reserved bit is not part of the id
+                if fed_lasts and clean and wlast > fed_lasts[-1] and increase_at is None and not done_before:
+                    increase_at = st["i"]
+                fed_lasts.append(wlast)
                 fed_any_goaway = True
                 n_fed_goaway += 1
                 if fed_goaway is None and clean:
-                    fed_goaway = (st["i"], w["last"], w["code"])
+                    fed_goaway = (st["i"], wlast, w["code"])
             elif w["t"] == "PING" and w.get("ack") and gstate == 2 and be(w.get("payload") or op.get("bytes", [])[9:17]) == gpayload:
                 gstate = 3
         elif o == "graceful_shutdown" and res == "ok" and graceful_at is None and not goaways_written and not abrupt and not fed_any_goaway and clean:
@@ -940,8 +995,13 @@ def c15_oracle(sc):
                     if fed_goaway is not None and polled_after_goaway and sid > fed_goaway[1] and sid not in handed_out:
                         return {"class": "new-stream-after-goaway", "step": st["i"],
                                 "why": "a new locally initiated stream was started above the peer's GOAWAY last-stream id", "sid": sid, "goaway": fed_goaway}
+        if o in ("conn_poll", "poll_accept") and isinstance(res, str) and res != "Pending" and conn_result_of(res) is not None:
+            done_before = True
         if o in ("conn_poll", "poll_accept") and clean and st["io"]["inbound"] == 0:
-            if fed_goaway is not None and st["i"] > fed_goaway[0]:
+            if increase_at is not None and st["i"] > increase_at and res == "Pending" and len(goaways_written) == 0:
+                increase_consumed = True
+            # consumed while the connection stayed alive (a poll that ends the connection may have stopped reading earlier)
+            if fed_goaway is not None and st["i"] > fed_goaway[0] and (res == "Pending" or isinstance(res, dict)):
                 polled_after_goaway = True
             if gstate == 3:
                 gstate = 4
@@ -956,11 +1016,73 @@ def c15_oracle(sc):
             if cr == "ok" or (isinstance(cr, tuple) and not (cr[1] == fed_goaway[2] and cr[2] == "IRemote")):
                 return {"class": "result-without-peer-code", "step": st["i"], "why": "the connection's result does not report the peer's GOAWAY error code",
                         "result": res, "goaway": fed_goaway}
-    if gstate == 4 and clean and not abrupt and sc.get("settled"):
+    if increase_consumed and clean and sc.get("settled") and not abrupt and not any(g[2] != 0 for g in goaways_written):
+        return {"class": "peer-goaway-increase-tolerated", "step": sc["trace"][-1]["i"],
+                "why": "the peer raised its GOAWAY last-stream id and this was not treated as a connection error", "fed_lasts": fed_lasts}
+    lastst = sc["trace"][-1]
+    quiescent = sc.get("settled") or (lastst["op"].get("op") == "conn_poll" and lastst["res"] == "Pending" and not lastst["out"]
+                                      and lastst["io"]["inbound"] == 0)
+    if gstate == 4 and clean and not abrupt and quiescent:
         if len(goaways_written) < 2:
-            return {"class": "graceful-no-second-goaway", "step": sc["trace"][-1]["i"],
+            return {"class": "graceful-no-second-goaway", "step": lastst["i"],
                     "why": "graceful shutdown: the PONG was consumed but no second GOAWAY followed", "goaways": goaways_written}
+        # drained: no stream counted any more => the connection must have closed (Closing -> Closed -> result)
+        sn = lastst.get("snap")
+        done = any(st["op"].get("op") in ("conn_poll", "poll_accept") and conn_result_of(st["res"]) is not None and st["res"] != "Pending"
+                   for st in sc["trace"])
+        if sn and sn["conn"].get("num_send_streams") == 0 and sn["conn"].get("num_recv_streams") == 0 and not done \
+                and all(g[2] == 0 for g in goaways_written):
+            # known class KF-C15-1 only when the last processed id is 2^31-1 (should_close_on_idle's `!= StreamId::MAX` test)
+            return {"class": "graceful-never-closes" if sn["conn"].get("recv_last_processed_id") == MAX_ID else "graceful-never-closes-below-max",
+                    "step": lastst["i"],
+                    "why": "graceful shutdown completed its GOAWAY exchange and no stream is left, but the connection does not close",
+                    "goaways": goaways_written, "last_processed_id": sn["conn"].get("recv_last_processed_id")}
     return None
+
+
+def replay_ops(cfg, ops):
+    """re-run an op list on the current tree; returns the new scenario (or None)"""
+    os.makedirs(common.CASES, exist_ok=True)
+    path = os.path.join(common.CASES, "control_replay_%d.json" % os.getpid())
+    with open(path, "w") as f:
+        json.dump({"cfg": cfg, "trace": [{"op": o} for o in ops]}, f)
+    rc, out = common.run_harness("conn", ["--replay", path], timeout=120)
+    for line in out.splitlines():
+        if line.startswith("{"):
+            try:
+                o = json.loads(line)
+            except ValueError:
+                continue
+            if "trace" in o:
+                o["settled"] = False
+                return o
+    return None
+
+
+def shrink_scenario(sc, fn, budget=250):
+    """drop ops (halving chunks) while the oracle `fn` still reports a violation of the same class; returns (scenario, violation)"""
+    cfg = sc["cfg"]
+    ops = [st["op"] for st in sc["trace"] if st["op"].get("op") != "handshake"]
+    base = replay_ops(cfg, ops)
+    v0 = fn(base) if base else None
+    if not v0:
+        return sc, fn(sc)          # does not reproduce by replay (settle-dependent): keep the original
+    cls = v0.get("class")
+    best, bestv = base, v0
+    chunk = max(1, len(ops) // 2)
+    while chunk >= 1 and budget > 0:
+        i = 0
+        while i < len(ops) and budget > 0:
+            cand = ops[:i] + ops[i + chunk:]
+            budget -= 1
+            r = replay_ops(cfg, cand)
+            v = fn(r) if r else None
+            if v and v.get("class") == cls:
+                ops, best, bestv = cand, r, v
+            else:
+                i += chunk
+        chunk //= 2
+    return best, bestv
 
 
 def oracle_control(rep, scs, prop):
@@ -979,11 +1101,13 @@ def oracle_control(rep, scs, prop):
         if v:
             kn = [k for k in common.load_known_findings().get("known", []) if k.get("property") == prop and k.get("class") == v.get("class")]
             if kn:
-                rep.known("%s/%s: %s" % (prop, v.get("class"), kn[0].get("what", "")[:160]))
+                rep.known("%s class=%s: %s" % (kn[0].get("id", "?"), v.get("class"), kn[0].get("what", "")[:200]))
                 continue
             n_viol += 1
-            if n_viol <= 3:
-                rep.violation("failing-input", {"oracle": "%s wire-level oracle" % prop, "violation": v, "scenario": scenario_of(sc)})
+            if n_viol <= 2:
+                small, v2 = shrink_scenario(sc, fn)
+                rep.violation("failing-input", {"oracle": "%s wire-level oracle" % prop, "class": v.get("class"), "violation": v2 or v,
+                                                "scenario": scenario_of(small), "original": {"seed": sc.get("seed"), "i": sc.get("i"), "profile": sc.get("profile")}})
     rep.oracle_runs.append({"name": "%s-wire-oracle" % prop.lower(), "cases": len(scs), "nontrivial": nontriv, "failures": n_viol})
     return n_viol
 
